@@ -110,7 +110,7 @@ func ElemValid(e *banderwagon.Element) bool {
 }
 
 // NumRepKinds is the number of representation kinds of Rerepresent.
-const NumRepKinds = 8
+const NumRepKinds = 10
 
 var repLambdas = func() []*big.Int {
 	var out []*big.Int
@@ -133,6 +133,20 @@ func Rerepresent(e *banderwagon.Element, kind int, rng *rand.Rand) banderwagon.E
 	}
 	a := ref.FromAffine(p.Affine())
 	switch kind % NumRepKinds {
+	case 8:
+		// scaled so that Y = 1 (a coordinate other than Z looks "normalised")
+		af := a.Affine()
+		if af.Y.Sign() != 0 {
+			return ElemFromRef(a, ref.InvP(af.Y), rng.Intn(2) == 0)
+		}
+		return ElemFromRef(a, nil, false)
+	case 9:
+		// scaled so that X = 1
+		af := a.Affine()
+		if af.X.Sign() != 0 {
+			return ElemFromRef(a, ref.InvP(af.X), rng.Intn(2) == 0)
+		}
+		return ElemFromRef(a, nil, true)
 	case 6:
 		// limb-structured rescaling factor (regular value with low limb 0 or 1 and higher limbs set, p-1, ...)
 		l := repLambdas[rng.Intn(len(repLambdas))]
